@@ -1246,6 +1246,13 @@ func (s *BgpServer) processOutgoingPaths(peer *peer, paths, olds []*table.Path) 
 		}
 		if p := s.filterpath(peer, path, old); p != nil {
 			outgoing = append(outgoing, p)
+		} else if path != nil && path.GetFamily() != bgp.RF_RTC_UC && peer.IsFamilyEnabled(bgp.RF_RTC_UC) &&
+			peer.IsFamilyEnabled(path.GetFamily()) && !peer.interestedIn(path) && peer.hasPathAlreadyBeenSent(path) {
+			// RFC 4684: the peer lost its membership for this route between the table update
+			// and this propagation. processRTCMembership looked for the route when it had
+			// already changed or gone, and the RTC filter drops the change because the peer
+			// is "not interested" in either version: the route it holds must be withdrawn here.
+			outgoing = append(outgoing, path.Clone(true))
 		}
 	}
 	return outgoing
